@@ -324,6 +324,16 @@ func (rn *runner) extFault(c tcase, env *sbx.Env, repo, gitDir, path, abs string
 		return
 	}
 	_ = p
+	// the configuration may change between clean and smudge: the extension the pointer names is gone,
+	// or is configured under another name, or with another priority
+	switch c.Chunk {
+	case "smudge-ext-unconfigured":
+		env.MustGit(repo, "config", "--remove-section", "lfs.extension.vx")
+	case "smudge-ext-renamed":
+		env.MustGit(repo, "config", "--rename-section", "lfs.extension.vx", "lfs.extension.vy")
+	case "smudge-ext-other-priority":
+		env.MustGit(repo, "config", "lfs.extension.vx.priority", "3")
+	}
 	// ... and smudging it either fails or returns the original bytes
 	sm := env.Run(sbx.RunOpt{Dir: repo, Stdin: bytes.NewReader(ptr)}, "git-lfs", "smudge", "--", path)
 	run.Count("processes", 1)
@@ -442,7 +452,7 @@ func min(a, b int) int {
 func main() {
 	run := evid.New("C01", "exploration")
 	defer sbx.RemoveBase()
-	run.Rule = "seeded cases over sizes {0,1,2,100,1023,1024,1025,4096,65515,65516,65517,131075,(3MB)} x content {random, text LF/CRLF, zeros, pointer-prefix+payload, pointer look-alike} x mode {one-shot clean/smudge fed through a pipe in write(2) chunk plans whole/1/7/512/1023/1024/1025/4096/random with pauses, filter-process via an independent pkt-line client with packet sizes 1/2/100/8192/65515/65516/random, git add + git checkout (process and one-shot filters), git hash-object --path --stdin (process and one-shot), git merge through git lfs merge-driver with merged pointer shorter/equal/longer than the overwritten one} x working-tree file at the path {absent, same, empty, 10 bytes, 1024 bytes, longer} x {no extension, one reversible extension}; plus a pointer extension whose clean or smudge program fails (partial output + exit 3, no output + exit 1, full output + exit 1) driven one-shot and by git add: the filter may refuse, but a reported success must still satisfy the oracle. Oracle: output parses as canonical pointer (ptrspec), oid/size = SHA-256/length of the stored object, stored object = input (or extension image), smudge output = input; merge result vs git merge-file. Class = all coordinates."
+	run.Rule = "seeded cases over sizes {0,1,2,100,1023,1024,1025,4096,65515,65516,65517,131075,(3MB)} x content {random, text LF/CRLF, zeros, pointer-prefix+payload, pointer look-alike} x mode {one-shot clean/smudge fed through a pipe in write(2) chunk plans whole/1/7/512/1023/1024/1025/4096/random with pauses, filter-process via an independent pkt-line client with packet sizes 1/2/100/8192/65515/65516/random, git add + git checkout (process and one-shot filters), git hash-object --path --stdin (process and one-shot), git merge through git lfs merge-driver with merged pointer shorter/equal/longer than the overwritten one} x working-tree file at the path {absent, same, empty, 10 bytes, 1024 bytes, longer} x {no extension, one reversible extension}; plus a pointer extension whose clean or smudge program fails (partial output + exit 3, no output + exit 1, full output + exit 1, smudge side not inverting the transform) or whose configuration changes between clean and smudge (removed, renamed, other priority) driven one-shot and by git add: the filter may refuse, but a reported success must still satisfy the oracle. Oracle: output parses as canonical pointer (ptrspec), oid/size = SHA-256/length of the stored object, stored object = input (or extension image), smudge output = input; merge result vs git merge-file. Class = all coordinates."
 	run.Assumptions = []string{"inputs are non-pointers by construction (pointer pass-through is C08)", "pipe chunking with pauses is a legal OS schedule; nothing is assumed about timing", "git merge-file is the authority on the expected three-way merge result"}
 	rn := &runner{run: run}
 	r := rand.New(rand.NewSource(run.Seed))
@@ -517,7 +527,7 @@ func main() {
 			add(c)
 		}
 	}
-	for _, kind := range []string{"clean-partial", "clean-nooutput", "clean-full-exit", "smudge-partial", "smudge-nooutput"} {
+	for _, kind := range []string{"clean-partial", "clean-nooutput", "clean-full-exit", "smudge-partial", "smudge-nooutput", "smudge-identity", "smudge-ext-unconfigured", "smudge-ext-renamed", "smudge-ext-other-priority"} {
 		for _, via := range []string{"/oneshot", "/git-add"} {
 			for _, sz := range []int{1, 4900, 70000}[:run.N(2, 3)] {
 				add(tcase{Mode: "ext-fault", Size: sz, Content: "random", Wt: "absent", Ext: true, Chunk: kind, Pk: via})
